@@ -1,7 +1,7 @@
 /-
-Race exactness, part 8: `join` keeps `RC` (the joiner may already have acquired the clock of the thread it joins:
-`Notify::notify` lets the waiting thread join the notifier's causality at once; the second half of the wait
-acquires the same clock again).
+Race exactness, part 8: `join` keeps `RC` (the invariant `LinkT` allows the joiner to have acquired the clock of the
+thread it joins already — before the repair of finding F26 `Notify::notify` let the waiting thread join the
+notifier's causality at once; now it never has —; the second half of the wait acquires that clock).
 -/
 import LoomVerif.Proofs.RaceOps2
 
